@@ -25,6 +25,7 @@ PROPS = {
     "C06": ["contracts.c06_constructors"],
     "C07": ["contracts.c07_printers"],
     "C08": ["contracts.c08_parser"],
+    "C09": ["contracts.c08_parser", "contracts.c09_roundtrip"],
     "C10": ["contracts.c10_rewriters"],
     "C11": ["contracts.c11_cnf"],
     "C12": ["contracts.c12_oracles"],
